@@ -182,7 +182,11 @@ func runIndex(o Opts, mode string) error {
 		fin, pan := cq.Guard(120*time.Second, func() {
 			switch mode {
 			case "c01":
-				err = scenarioSequential(cw, w, rng, desc)
+				if s%6 == 5 { // histories whose batches were prepared against a root that has moved on since
+					err = scenarioConcurrent(cw, w, rng, desc)
+				} else {
+					err = scenarioSequential(cw, w, rng, desc)
+				}
 			case "c04":
 				err = scenarioHeldReaders(cw, w, rng, desc)
 			case "c05":
